@@ -798,9 +798,13 @@ func mergeMaps(dst, src map[string]any) (map[string]any, bool) {
 		return dst, changed
 	}
 
-	if dst == nil {
-		dst = make(map[string]any)
+	// Merge into a copy: dst is usually the live cached value (topic's public, user's private),
+	// it must not change if the caller then fails to save the result.
+	merged := make(map[string]any, len(dst)+len(src))
+	for key, val := range dst {
+		merged[key] = val
 	}
+	dst = merged
 
 	for key, val := range src {
 		xval := reflect.ValueOf(val)
